@@ -32,13 +32,17 @@ type c09Op struct {
 }
 
 type c09Case struct {
+	// GOARCH: the build of the child ("" = amd64, or 386: the loader is build-tagged code)
+	GOARCH  string  `json:"goarch,omitempty"`
 	Threads int     `json:"threads"`
 	Uid     int     `json:"uid"` // 0 or 65534
 	Ops     []c09Op `json:"ops"`
 }
 
-func c09Policy(op c09Op) spec.Policy {
-	p := spec.Policy{Arch: "x86_64", Default: actAllow}
+func c09Policy(op c09Op) spec.Policy { return c09PolicyFor("x86_64", op) }
+
+func c09PolicyFor(archName string, op c09Op) spec.Policy {
+	p := spec.Policy{Arch: archName, Default: actAllow}
 	switch op.Kind {
 	case "valid":
 		g := spec.Group{Action: actErrno}
@@ -73,7 +77,17 @@ func c09Policy(op c09Op) spec.Policy {
 	case "no-groups":
 		p.Groups = nil
 	case "oversize":
-		p.Groups = []spec.Group{oversizeGroup()}
+		p.Groups = []spec.Group{oversizeGroupFor(archName)}
+	case "len-65536", "len-65535", "len-65537", "len-131072":
+		// the program's length wraps in the 16-bit length field of sock_fprog (to 0, 65535, 1, 0): the kernel attaches
+		// nothing in any of these cases
+		var n int
+		fmt.Sscanf(op.Kind, "len-%d", &n)
+		if q, ok := policyOfLength(archName, n); ok {
+			p = q
+		} else {
+			p.Groups = []spec.Group{oversizeGroupFor(archName)}
+		}
 	}
 	return p
 }
@@ -83,7 +97,7 @@ func deniedVector(op c09Op) []bool {
 	if op.Kind == "allow-only" || op.Kind == "log-only" {
 		return v
 	}
-	if op.Kind == "oversize" {
+	if op.Kind == "oversize" || strings.HasPrefix(op.Kind, "len-") {
 		v[0] = true // getppid
 		return v
 	}
@@ -109,7 +123,14 @@ func drawC09(t *rapid.T) c09Case {
 	// flag words: the four combinations of thread-sync and log, alone and together with further known bits (0x4
 	// SPEC_ALLOW, 0x10 TSYNC_ESRCH) or with bits no kernel knows (the kernel answers EINVAL and attaches nothing)
 	flags := []uint32{0, 0, 1, 1, 2, 3, 0x80, 0xfffffffe, 0x11, 0x4, 0x5, 0x7, 0x13, 0x102, 0x103, 0x101, 0x43, 0x8003, 0x80000003, 0x80000001, 0x42}
-	kinds := []string{"valid", "valid", "valid", "valid", "unknown-name", "bad-index", "no-groups", "oversize", "allow-only", "log-only"}
+	kinds := []string{"valid", "valid", "valid", "valid", "unknown-name", "bad-index", "no-groups", "oversize", "allow-only", "log-only",
+		"valid", "valid", "valid", "valid", "unknown-name", "bad-index", "no-groups", "oversize", "allow-only", "log-only",
+		"valid", "valid", "valid", "valid", "unknown-name", "bad-index", "no-groups", "oversize", "allow-only", "log-only",
+		"valid", "valid", "valid", "valid", "unknown-name", "bad-index", "no-groups", "oversize", "allow-only", "log-only",
+		[]string{"len-65536", "len-65536", "len-65535", "len-65537", "len-131072"}[rapid.IntRange(0, 4).Draw(t, "lenKind")]}
+	if rapid.IntRange(0, 3).Draw(t, "abi") == 0 {
+		c.GOARCH = "386"
+	}
 	loadedNoTsync := map[int]bool{}
 	faulted := false
 	for i := 0; i < n; i++ {
@@ -176,7 +197,11 @@ func checkC09(raw json.RawMessage) (ev.Result, error) {
 	if hostArchName() != "x86_64" {
 		return ev.Result{}, ev.Inconclusivef("kernel checks are set up for an x86_64 host")
 	}
-	base := baselineProbes("x86_64")
+	archName := "x86_64"
+	if c.GOARCH == "386" {
+		archName = "i386"
+	}
+	base := baselineProbes(archName)
 	job := &kjob.Job{}
 	job.Steps = append(job.Steps, kjob.Step{Op: "mkthreads", N: c.Threads})
 	// snapshot block: probe on every thread + allstatus; returns index of first step of the block
@@ -205,14 +230,14 @@ func checkC09(raw json.RawMessage) (ev.Result, error) {
 		case "nested-load":
 			in := op
 			in.Denied = op.Denied2
-			job.Steps = append(job.Steps, kjob.Step{Op: "nested-load", Thread: op.Thread, Filter: &kjob.FilterSpec{Policy: c09Policy(op), NNP: op.NNP, HostArch: true},
-				Inner: &kjob.Step{Op: "load", Thread: op.Thread2, Filter: &kjob.FilterSpec{Policy: c09Policy(in), NNP: op.NNP, HostArch: true}}})
+			job.Steps = append(job.Steps, kjob.Step{Op: "nested-load", Thread: op.Thread, Filter: &kjob.FilterSpec{Policy: c09PolicyFor(archName, op), NNP: op.NNP, HostArch: true},
+				Inner: &kjob.Step{Op: "load", Thread: op.Thread2, Filter: &kjob.FilterSpec{Policy: c09PolicyFor(archName, in), NNP: op.NNP, HostArch: true}}})
 		default:
-			job.Steps = append(job.Steps, kjob.Step{Op: "load", Thread: op.Thread, Filter: &kjob.FilterSpec{Policy: c09Policy(op), NNP: op.NNP, Flag: op.Flag, HostArch: true}})
+			job.Steps = append(job.Steps, kjob.Step{Op: "load", Thread: op.Thread, Filter: &kjob.FilterSpec{Policy: c09PolicyFor(archName, op), NNP: op.NNP, Flag: op.Flag, HostArch: true}})
 		}
 		addSnap()
 	}
-	rr, err := kchild.Run(job, kchild.RunOpts{Uid: c.Uid})
+	rr, err := kchild.Run(job, kchild.RunOpts{Uid: c.Uid, GOARCH: c.GOARCH})
 	if err != nil {
 		return ev.Result{}, ev.Inconclusivef("%v", err)
 	}
@@ -265,7 +290,7 @@ func checkC09(raw json.RawMessage) (ev.Result, error) {
 		}
 		return s, nil
 	}
-	res := ev.Result{Classes: []string{fmt.Sprintf("uid:%d", c.Uid)}}
+	res := ev.Result{Classes: []string{fmt.Sprintf("uid:%d", c.Uid), "abi:" + map[string]string{"": "amd64", "386": "386"}[c.GOARCH]}}
 	prev, err := snap(0)
 	if err != nil {
 		return res, err
@@ -423,6 +448,8 @@ func checkC09(raw json.RawMessage) (ev.Result, error) {
 					why = "ENOSYS-seccomp-unavailable"
 				case op.Kind == "oversize":
 					why = "EINVAL-oversize-program"
+				case strings.HasPrefix(op.Kind, "len-"):
+					why = "EINVAL-program-length-wraps-in-16-bits"
 				case op.Flag&^0x3f != 0:
 					why = "EINVAL-unknown-flag-bits"
 				case c.Uid != 0 && !op.NNP && before.NNP == 0:
@@ -502,10 +529,103 @@ func TestC09Histories(t *testing.T) {
 // oversizeGroup: valid and assemblable, but far beyond the kernel's 4096-instruction limit whatever the lowering: 300
 // different syscalls x 3 lists x 3 Equal conditions whose operands have two non-zero, pairwise different halves. Any
 // correct program has to load and compare both halves of every condition (>= 4 instructions each): >= 10 800.
-func oversizeGroup() spec.Group {
+func oversizeGroup() spec.Group { return oversizeGroupFor("x86_64") }
+
+var lengthPolicies = map[string]*spec.Policy{}
+
+// policyOfLength builds a valid policy (errno for getppid, allow groups over the rest of the table repeated as often as
+// needed) whose compiled program has exactly n instructions. The sizes are measured with the compiler under test only to
+// aim; whether the aim was met is checked on the result.
+func policyOfLength(archName string, n int) (spec.Policy, bool) {
+	key := fmt.Sprintf("%s/%d", archName, n)
+	if p, ok := lengthPolicies[key]; ok {
+		if p == nil {
+			return spec.Policy{}, false
+		}
+		return *p, true
+	}
+	lengthPolicies[key] = nil
+	var rest []string
+	for _, name := range gen.Universe(archName) {
+		if !isProbe(name) {
+			rest = append(rest, name)
+		}
+	}
+	size := func(p *spec.Policy) int {
+		cp, err, pan := compilePolicy(p)
+		if err != nil || pan != nil {
+			return -1
+		}
+		return len(cp.insts)
+	}
+	// groups of at most 200 names need no bridging jumps inside, so the size is linear in the number of groups and
+	// names: measure the coefficients on three small policies, compose, and check the result with one compilation
+	mk := func(groups, names, last int) spec.Policy {
+		p := spec.Policy{Arch: archName, Default: actAllow, Groups: []spec.Group{{Action: actErrno, Names: []string{"getppid"}}}}
+		for g := 0; g < groups; g++ {
+			p.Groups = append(p.Groups, spec.Group{Action: actAllow, Names: rest[:names]})
+		}
+		if last > 0 {
+			p.Groups = append(p.Groups, spec.Group{Action: actAllow, Names: rest[:last]})
+		}
+		return p
+	}
+	if len(rest) < 200 {
+		return spec.Policy{}, false
+	}
+	// (measured on policies that are already beyond 255 instructions: the prologue is in its long form there)
+	pa, pb, pc, pd := mk(2, 200, 0), mk(3, 200, 0), mk(2, 200, 10), mk(2, 200, 11)
+	sa, sb, sc, sd := size(&pa), size(&pb), size(&pc), size(&pd)
+	perName := sd - sc
+	perGroup := sc - sa - 10*perName
+	base := sa - 2*(sb-sa)
+	if sa < 0 || sb < 0 || sc < 0 || sd < 0 || perName < 1 || perGroup < 1 || sb-sa != perGroup+200*perName {
+		return spec.Policy{}, false
+	}
+	full := perGroup + 200*perName
+	groups := (n - base) / full
+	restInsns := n - base - groups*full
+	last := 0
+	switch {
+	case restInsns == 0:
+	case restInsns >= perGroup+perName && (restInsns-perGroup)%perName == 0 && (restInsns-perGroup)/perName <= 200:
+		last = (restInsns - perGroup) / perName
+	default:
+		// give one name less to some full groups until the remainder fits (perName is 1 in practice)
+		groups--
+		restInsns += full
+		if restInsns < perGroup+perName || (restInsns-perGroup)%perName != 0 {
+			return spec.Policy{}, false
+		}
+		k := (restInsns - perGroup) / perName
+		if k > 200 {
+			// split over two groups
+			p := mk(groups, 200, 0)
+			k -= perGroup / perName
+			if perGroup%perName != 0 || k < 2 || k > 400 {
+				return spec.Policy{}, false
+			}
+			p.Groups = append(p.Groups, spec.Group{Action: actAllow, Names: rest[:k/2]}, spec.Group{Action: actAllow, Names: rest[:k-k/2]})
+			if size(&p) == n {
+				lengthPolicies[key] = &p
+				return p, true
+			}
+			return spec.Policy{}, false
+		}
+		last = k
+	}
+	p := mk(groups, 200, last)
+	if size(&p) != n {
+		return spec.Policy{}, false
+	}
+	lengthPolicies[key] = &p
+	return p, true
+}
+
+func oversizeGroupFor(archName string) spec.Group {
 	g := spec.Group{Action: actErrno, Names: []string{"getppid"}}
 	n := 0
-	for _, name := range gen.Universe("x86_64") {
+	for _, name := range gen.Universe(archName) {
 		if isProbe(name) {
 			continue
 		}
